@@ -324,7 +324,8 @@ def execute(case):
             n_io0 = len(c.io_nodes)
             res.notes['step_kind'] = kind
             res.notes['ports_same'] = names0[:n_io0] == names1[:n_io0]
-            res.notes['state_elements_permuted'] = sorted(names0[n_io0:]) == sorted(names1[n_io0:]) and names0[n_io0:] != names1[n_io0:]
+            rest1 = [x for x in names1 if x not in added]      # the list without the added names
+            res.notes['state_elements_permuted'] = names0[:n_io0] == rest1[:n_io0] and sorted(names0[n_io0:]) == sorted(rest1[n_io0:]) and names0[n_io0:] != rest1[n_io0:]
             res.violate('s-nodes-changed', f'step {k} ({did}): ports/state elements before {names0[:10]} after {names1[:10]} (added {added[:4]}, removed {removed[:4]})')
             return res
         if not graphsim.check_invariants(c, res, k, did): return res     # a structurally corrupt graph has no function
@@ -350,9 +351,11 @@ def execute(case):
 def finding_key(case, res, kind):
     if kind == 's-nodes-changed':
         added = res.notes.get('names_added_kinds') or []
-        if added and not res.notes.get('names_removed') and res.notes.get('order_kept') and all(any(k.startswith(h) for h in HIDDEN_LATCH) for k in added):
-            return 'F9i-latch-cell-without-latch-in-its-name'
-        if res.notes.get('ports_same') and res.notes.get('state_elements_permuted') and res.notes.get('step_kind') in ('elim', 'resolve', 'subst'):
+        hidden = bool(added) and not res.notes.get('names_removed') and all(any(k.startswith(h) for h in HIDDEN_LATCH) for k in added)
+        permuted = bool(res.notes.get('state_elements_permuted')) and res.notes.get('step_kind') in ('elim', 'resolve', 'subst')
+        if hidden and (res.notes.get('order_kept') or permuted):
+            return 'F9i-latch-cell-without-latch-in-its-name'       # (possibly together with F14 in the same step)
+        if not added and not res.notes.get('names_removed') and res.notes.get('ports_same') and permuted:
             return 'F14-node-removal-permutes-state-element-order'
     return None
 
